@@ -9,7 +9,7 @@ BOUNDS = dict(grid_points=3, grid='arbitrary strictly increasing positive r (not
               gamma='unbounded reals', u='unbounded reals (finite)', sigma='any positive real relative to the grid',
               closures=CLOSURES + list(ALIASES), flags=[False, True])
 OUTSIDE = ['grids longer than 3 points (the closures have no length-dependent branch; evidence only)',
-           'rounding error of exp/sqrt', 'u = +inf (hard cores are the finite high_value in this code base)']
+           'rounding error of exp/sqrt', 'u = +inf only through the inf-core instances (an IEEE-style infinity object at the core points: inf*0 = nan, exp(-inf) = 0)']
 ASSUMPTIONS = ['MS oracle: c = exp(sqrt(1+2(gamma-u))-1)-1-gamma (Martynov-Sarkisov 1983 with gamma*=gamma-u, Yethiraj-Schweizer 1992); side condition 1+2(gamma-u) >= 0',
                'limit claims are about the first-order Taylor data (value and both partial derivatives at gamma=u=0), computed by running the real calculate over dual numbers']
 
@@ -24,6 +24,8 @@ def instances(tier):
         for flag in (False, True):
             out.append(dict(name='limit[%s,hc=%s]' % (cl, flag), fn='closure_limit', args=dict(cls=cl, flag=flag)))
     out.append(dict(name='aliases', fn='alias_identity', args={}))
+    for cl, fl in [(c, True) for c in CLOSURES] + [('PercusYevick', False), ('HyperNettedChain', False)]:
+        out.append(dict(name='inf-core[%s,hc=%s]' % (cl, fl), fn='closure_inf', args=dict(cls=cl, flag=fl)))
     return out
 
 
@@ -162,3 +164,82 @@ def alias_identity(E):
         E.claim_true('alias-subclass[%s]' % short, issubclass(A, B))
         E.claim_true('alias-same-calculate[%s]' % short, A.calculate is B.calculate and A.__init__ is B.__init__)
         E.claim_true('alias-is-atomic[%s]' % short, issubclass(A, pyPRISM.closure.AtomicClosure))
+
+
+# ----------------------------------------------------------------------------- genuinely infinite overlap value
+
+class PInf:
+    """+/- infinity as a potential value (hard core with high_value = inf), IEEE style: inf*0 = nan, exp(-inf) = 0.
+    Only the operations a closure may apply to u are supported; anything else is 'not encodable'."""
+    def __init__(self, sign=1, nan=False):
+        self.sign = sign; self.nan = nan
+
+    def _num(self, o):
+        return isinstance(o, (int, float, bool, _np.bool_, _np.floating, _np.integer)) or hasattr(o, 'n')
+
+    def __neg__(self):
+        return PInf(-self.sign, self.nan)
+
+    def __add__(self, o):
+        if isinstance(o, PInf):
+            return PInf(self.sign, self.nan or o.nan or o.sign != self.sign)
+        if self._num(o):
+            return PInf(self.sign, self.nan)
+        return NotImplemented
+    __radd__ = __add__
+
+    def __sub__(self, o):
+        return self + (-o)
+
+    def __rsub__(self, o):
+        return (-self) + o
+
+    def __mul__(self, o):
+        if isinstance(o, (bool, _np.bool_, int, float)):
+            if o == 0:
+                return PInf(self.sign, True)          # inf * 0 = nan
+            return PInf(self.sign if o > 0 else -self.sign, self.nan)
+        from vsym.core import NotEncodable
+        raise NotEncodable('inf * symbolic value (sign unknown)')
+    __rmul__ = __mul__
+
+    def __truediv__(self, o):
+        if isinstance(o, (int, float)) and o != 0:
+            return PInf(self.sign if o > 0 else -self.sign, self.nan)
+        from vsym.core import NotEncodable
+        raise NotEncodable('inf / symbolic value')
+
+    def exp(self):
+        if self.nan:
+            return PInf(1, True)
+        return 0.0 if self.sign < 0 else PInf(1)
+
+    def sqrt(self):
+        return PInf(1, self.nan or self.sign < 0)
+
+
+def closure_inf(E, cls, flag):
+    """a genuinely hard core: u = +inf at the core points. With the flag c = -1-gamma there (a finite number, no nan);
+    PY/HNC without the flag give -1-gamma as well (exp(-inf) = 0)."""
+    import math
+    L = 3
+    C = getattr(pyPRISM.closure, cls)
+    r = inc_grid(E, 'r', L)
+    sigma = E.real('sigma', pos=True, default=0.8)
+    gamma = E.arr('g', L, default=0.1)
+    u = _np.empty(L, dtype=object if E.sym else float)
+    core = []
+    for i in range(L):
+        inside = bool(r[i] <= sigma)
+        core.append(inside)
+        u[i] = (PInf(1) if E.sym else math.inf) if inside else E.real('u_%d' % i, default=0.2)
+    cl = C(apply_hard_core=flag)
+    cl.potential = u; cl.sigma = sigma
+    out = cl.calculate(r, gamma)
+    E.reachable('inf')
+    for i in range(L):
+        if core[i]:
+            ok = not isinstance(out[i], PInf) and not (isinstance(out[i], float) and (math.isnan(out[i]) or math.isinf(out[i])))
+            E.claim_true('core-value-is-a-finite-number[%d]' % i, ok)
+            if ok:
+                E.claim_eq('core[%d]==-1-gamma' % i, out[i], -1.0 - gamma[i])
